@@ -71,7 +71,7 @@ func planOf(e *eng.Eng, ctx *sql.Context, q string) (text string, err error) {
 	return text, err
 }
 
-var joinOpRe = regexp.MustCompile(`(?m)^[ │├└─]*([A-Za-z]*Join[A-Za-z]*|IndexedTableAccess\([^)]*\)|IndexedTableAccess|HashLookup|CachedResults|Filter|Sort|TableAlias\([^)]*\)|Table|Project|GroupBy|Distinct|TopN|Limit)\b`)
+var joinOpRe = regexp.MustCompile(`(?m)^[ │├└─]*([A-Za-z]*Join[A-Za-z]*|cmp: \(\(|IndexedTableAccess\([^)]*\)|IndexedTableAccess|HashLookup|CachedResults|Filter|Sort|TableAlias\([^)]*\)|Table|Project|GroupBy|Distinct|TopN|Limit)\b`)
 
 // planOps: the operator skeleton of a plan text: join operators in tree order with the access
 // path of each table.
@@ -80,6 +80,9 @@ func planOps(text string) []string {
 	for _, m := range joinOpRe.FindAllStringSubmatch(text, -1) {
 		op := m[1]
 		switch {
+		case strings.HasPrefix(op, "cmp: (("):
+			// the merge join compares row constructors (composite index)
+			ops = append(ops, "TupleCmp")
 		case strings.Contains(op, "Join"):
 			ops = append(ops, op)
 		case strings.HasPrefix(op, "IndexedTableAccess"):
@@ -431,6 +434,18 @@ func (x *gen) genDb(maxT int) *sqlgen.Db {
 	return db
 }
 
+// conjHaveCols: every top-level conjunct mentions a column of the current row. (A constant-false
+// conjunct in an ON / WHERE makes the analyzer replace a join input by an EmptyTable, and join
+// planning then fails for EVERY configuration with the internal error "failed to replan join:
+// unknown type for rel output cols: *memo.EmptyTable" — an engine defect, but not a plan dependence:
+// kept out of this generator's envelope.)
+func conjHaveCols(e *sqlgen.Expr) bool {
+	if e.Op == "and" {
+		return conjHaveCols(e.Args[0]) && conjHaveCols(e.Args[1])
+	}
+	return sqlgen.HasCol(e)
+}
+
 func intCols(tys []sqlgen.Ty, lo, hi int) []int {
 	var out []int
 	for i := lo; i < hi; i++ {
@@ -465,7 +480,7 @@ func (x *gen) joinCond(all []sqlgen.Ty, nl int) *sqlgen.Expr {
 	}
 	if x.r.Chance(1, 3) {
 		extra := x.g.Pred(x.r.Intn(2), [][]sqlgen.Ty{all})
-		if sqlgen.HasCol(extra) {
+		if conjHaveCols(extra) {
 			on = sqlgen.Bin("and", on, extra)
 			x.g.Stats["on:extra-conjunct"]++
 		}
@@ -519,7 +534,7 @@ func (x *gen) subPred(outer []sqlgen.Ty) *sqlgen.Expr {
 		p := sqlgen.Cmp("eq", sqlgen.Col(0, hx.Pick(x.r, ic)), sqlgen.Col(1, hx.Pick(x.r, oc)))
 		if x.r.Chance(1, 3) {
 			extra := x.g.Pred(0, [][]sqlgen.Ty{in})
-			if sqlgen.HasCol(extra) {
+			if conjHaveCols(extra) {
 				p = sqlgen.Bin("and", p, extra)
 			}
 		}
@@ -530,7 +545,7 @@ func (x *gen) subPred(outer []sqlgen.Ty) *sqlgen.Expr {
 		switch x.r.Intn(4) {
 		case 0:
 			extra := x.g.Pred(0, [][]sqlgen.Ty{in})
-			if sqlgen.HasCol(extra) {
+			if conjHaveCols(extra) {
 				sq = sqlgen.Filter(extra, sq)
 			}
 		case 1:
@@ -549,6 +564,156 @@ func (x *gen) subPred(outer []sqlgen.Ty) *sqlgen.Expr {
 	return e
 }
 
+// reorderChain: a three-table left-deep chain aimed at the reordering moves: every join is inner or
+// left outer, every ON is ONE conjunct over exactly two tables (so that assoc / l-asscom / r-asscom
+// are applicable), and conditions are often NULL-accepting (`<=>`, `x IS NULL OR x = y`,
+// `(x = y) IS NOT TRUE`), which is what makes an unsound move visible on NULL-padded rows.
+func (x *gen) reorderChain() (*sqlgen.Query, []sqlgen.Ty) {
+	pickT := func() int { return x.r.Intn(len(x.db.Tables)) }
+	t1, t2, t3 := pickT(), pickT(), pickT()
+	ty1, ty2, ty3 := x.db.Tables[t1].Tys, x.db.Tables[t2].Tys, x.db.Tables[t3].Tys
+	cond := func(li, ri int) *sqlgen.Expr {
+		a, b := sqlgen.Col(0, li), sqlgen.Col(0, ri)
+		switch x.r.Intn(6) {
+		case 0, 1:
+			x.g.Stats["reorder:on-eq"]++
+			return sqlgen.Cmp("eq", a, b)
+		case 2:
+			x.g.Stats["reorder:on-nullsafe"]++
+			return sqlgen.Cmp("nseq", a, b)
+		case 3:
+			x.g.Stats["reorder:on-isnull-or-eq"]++
+			return sqlgen.Bin("or", sqlgen.Un("isnull", a), sqlgen.Cmp("eq", a.Clone(), b))
+		case 4:
+			x.g.Stats["reorder:on-is-not-true"]++
+			n := sqlgen.Not(sqlgen.Un("istrue", sqlgen.Cmp(hx.Pick(x.r, []string{"eq", "lt"}), a, b)))
+			n.Alt = x.r.Bool()
+			return n
+		default:
+			x.g.Stats["reorder:on-range"]++
+			return sqlgen.Cmp(hx.Pick(x.r, []string{"lt", "le", "ne"}), a, b)
+		}
+	}
+	k1 := hx.Pick(x.r, []string{"inner", "left"})
+	k2 := hx.Pick(x.r, []string{"inner", "left"})
+	all12 := append(append([]sqlgen.Ty(nil), ty1...), ty2...)
+	all := append(append([]sqlgen.Ty(nil), all12...), ty3...)
+	c1 := intCols(all12, 0, len(ty1))
+	c2 := intCols(all12, len(ty1), len(all12))
+	c3 := intCols(all, len(all12), len(all))
+	j1 := sqlgen.Join(k1, cond(hx.Pick(x.r, c1), hx.Pick(x.r, c2)), sqlgen.TableQ(t1), sqlgen.TableQ(t2))
+	// the upper condition mentions e3 and exactly one of e1, e2
+	lower := c2
+	if x.r.Bool() {
+		lower = c1
+	}
+	j2 := sqlgen.Join(k2, cond(hx.Pick(x.r, lower), hx.Pick(x.r, c3)), j1, sqlgen.TableQ(t3))
+	x.g.Stats["reorder:"+k1+"-"+k2]++
+	return j2, all
+}
+
+// genPhysDb: tables made for merge / lookup / hash joins: 2-3 int columns, column 0 (and sometimes
+// column 1) indexed, up to 9 rows whose keys come from a tiny domain (blocks of equal keys, NULL keys).
+func (x *gen) genPhysDb() *sqlgen.Db {
+	db := &sqlgen.Db{}
+	nt := x.r.Range(2, 3)
+	for n := 0; n < nt; n++ {
+		t := &sqlgen.Table{}
+		nc := x.r.Range(2, 3)
+		for j := 0; j < nc; j++ {
+			t.Tys = append(t.Tys, sqlgen.TInt)
+			t.NotNull = append(t.NotNull, false)
+		}
+		layout := x.r.Intn(5)
+		pk := layout == 0
+		if pk {
+			t.NotNull[0] = true
+		}
+		nr := x.r.Range(0, 9)
+		used := map[int64]bool{}
+		for i := 0; i < nr; i++ {
+			row := make([]sqlgen.Value, nc)
+			for j := range row {
+				if x.r.Chance(1, 6) {
+					row[j] = sqlgen.Null()
+				} else {
+					row[j] = sqlgen.Int(int64(x.r.Range(0, 3)))
+				}
+			}
+			if pk {
+				v := int64(x.r.Range(0, 6))
+				for used[v] {
+					v++
+				}
+				used[v] = true
+				row[0] = sqlgen.Int(v)
+			}
+			t.Rows = append(t.Rows, row)
+		}
+		switch layout {
+		case 0:
+			t.Extra = ", PRIMARY KEY (c0)"
+			x.g.Stats["db:pk"]++
+		case 1, 2:
+			t.Extra = ", KEY k0 (c0)"
+			x.g.Stats["db:key"]++
+		case 3:
+			t.Extra = ", KEY k0 (c0), KEY k1 (c1)"
+			x.g.Stats["db:two-keys"]++
+		case 4:
+			t.Extra = ", KEY k01 (c0, c1)"
+			x.g.Stats["db:composite"]++
+		}
+		db.Tables = append(db.Tables, t)
+	}
+	x.db = db
+	x.g.Db = db
+	return db
+}
+
+// physQuery: a two- or three-table inner/left equi-join on indexed columns, optionally with a
+// second conjunct (the merge join's `sel` filters / the hash join's residual condition).
+func (x *gen) physQuery() qcase {
+	n := 2
+	if x.r.Chance(1, 4) {
+		n = 3
+	}
+	t0 := x.r.Intn(len(x.db.Tables))
+	q := sqlgen.TableQ(t0)
+	tys := append([]sqlgen.Ty(nil), x.db.Tables[t0].Tys...)
+	kind := hx.Pick(x.r, []string{"inner", "left"})
+	for i := 1; i < n; i++ {
+		m := x.r.Intn(len(x.db.Tables))
+		rt := x.db.Tables[m].Tys
+		nl := len(tys)
+		all := append(append([]sqlgen.Ty(nil), tys...), rt...)
+		// left column: an indexed column (0 or 1) of one of the tables so far; right: column 0 or 1
+		lc := (x.r.Intn(nl) / 2) * 0
+		lc = hx.Pick(x.r, []int{0, 0, 1})
+		if i > 1 && x.r.Bool() {
+			lc = nl - len(x.db.Tables[m].Tys)
+			if lc < 0 || lc >= nl {
+				lc = 0
+			}
+		}
+		rc := nl + hx.Pick(x.r, []int{0, 0, 1})
+		on := sqlgen.Cmp("eq", sqlgen.Col(0, lc), sqlgen.Col(0, rc))
+		if x.r.Bool() {
+			on.Args[0], on.Args[1] = on.Args[1], on.Args[0]
+		}
+		if x.r.Chance(1, 3) {
+			a, b := x.r.Intn(nl), nl+x.r.Intn(len(rt))
+			extra := sqlgen.Cmp(hx.Pick(x.r, []string{"le", "ne", "eq", "lt"}), sqlgen.Col(0, a), sqlgen.Col(0, b))
+			on = sqlgen.Bin("and", on, extra)
+			x.g.Stats["phys:extra-conjunct"]++
+		}
+		q = sqlgen.Join(kind, on, q, sqlgen.TableQ(m))
+		tys = all
+	}
+	x.g.Stats["phys:"+kind]++
+	return qcase{q: q, tys: tys, kind: "phys"}
+}
+
 type qcase struct {
 	q       *sqlgen.Query
 	tys     []sqlgen.Ty
@@ -563,7 +728,10 @@ func (x *gen) query(thorough bool, mixed bool) qcase {
 	kind := "join"
 	var q *sqlgen.Query
 	var tys []sqlgen.Ty
-	switch k := x.r.Intn(10); {
+	switch k := x.r.Intn(12); {
+	case k >= 10:
+		q, tys = x.reorderChain()
+		kind = "reorder"
 	case k < 5:
 		q, tys = x.joinChain(x.r.Range(2, maxN), mixed)
 	case k < 8:
@@ -585,9 +753,9 @@ func (x *gen) query(thorough bool, mixed bool) qcase {
 		q, tys = x.joinChain(2, mixed)
 		kind = "join+where"
 	}
-	if kind != "semi" && kind != "join+semi" && x.r.Chance(2, 5) || kind == "join+where" {
+	if kind != "semi" && kind != "join+semi" && kind != "reorder" && x.r.Chance(2, 5) || kind == "join+where" {
 		p := x.g.Pred(x.r.Intn(2), [][]sqlgen.Ty{tys})
-		if sqlgen.HasCol(p) {
+		if conjHaveCols(p) {
 			q = sqlgen.Filter(p, q)
 			x.g.Stats["q:where"]++
 		}
@@ -614,12 +782,122 @@ func (x *gen) query(thorough bool, mixed bool) qcase {
 	return qcase{q: q, tys: tys, kind: kind}
 }
 
+// tupleTerm: the reference term of `WHERE (a.ci, a.cj) NOT IN (SELECT b.ck, b.cl FROM b)`. A row
+// constructor IN is TRUE/FALSE/NULL as the disjunction over the subquery rows of the conjunction of
+// the column equalities; a WHERE keeps the row iff NOT IN is TRUE, i.e. iff every such conjunction is
+// FALSE: NOT EXISTS (SELECT * FROM b WHERE NOT ((b.ck = a.ci AND b.cl = a.cj) IS FALSE)).
+// (Gms.C01.tupleNotIn_filter proves this equivalence in the 3VL of the reference semantics.)
+func tupleTerm(ta, tb, i, j, k, l int) *sqlgen.Query {
+	conj := sqlgen.Bin("and", sqlgen.Cmp("eq", sqlgen.Col(1, i), sqlgen.Col(0, k)), sqlgen.Cmp("eq", sqlgen.Col(1, j), sqlgen.Col(0, l)))
+	return sqlgen.Filter(sqlgen.Not(sqlgen.Exists(sqlgen.Filter(sqlgen.Not(sqlgen.Un("isfalse", conj)), sqlgen.TableQ(tb)))), sqlgen.TableQ(ta))
+}
+
+func tupleSQL(db *sqlgen.Db, ta, tb, i, j, k, l int) string {
+	var items []string
+	for c := range db.Tables[ta].Tys {
+		items = append(items, fmt.Sprintf("s1.c%d AS c%d", c, c))
+	}
+	return fmt.Sprintf("SELECT %s FROM t%d AS s1 WHERE ((s1.c%d, s1.c%d) NOT IN (SELECT s2.c%d, s2.c%d FROM t%d AS s2))", strings.Join(items, ", "), ta, i, j, k, l, tb)
+}
+
+// tupleNotIn: a two-column NOT IN over two tables with >= 2 int columns each.
+func (x *gen) tupleNotIn() (qcase, string, bool) {
+	var cand []int
+	for n, t := range x.db.Tables {
+		if len(intCols(t.Tys, 0, len(t.Tys))) >= 2 {
+			cand = append(cand, n)
+		}
+	}
+	if len(cand) == 0 {
+		return qcase{}, "", false
+	}
+	ta, tb := hx.Pick(x.r, cand), hx.Pick(x.r, cand)
+	ia, ib := intCols(x.db.Tables[ta].Tys, 0, len(x.db.Tables[ta].Tys)), intCols(x.db.Tables[tb].Tys, 0, len(x.db.Tables[tb].Tys))
+	i, k := hx.Pick(x.r, ia), hx.Pick(x.r, ib)
+	j, l := hx.Pick(x.r, ia), hx.Pick(x.r, ib)
+	if i == j || k == l {
+		return qcase{}, "", false
+	}
+	x.g.Stats["sub:tuple-not-in"]++
+	return qcase{q: tupleTerm(ta, tb, i, j, k, l), tys: append([]sqlgen.Ty(nil), x.db.Tables[ta].Tys...), kind: "tuple-not-in"}, tupleSQL(x.db, ta, tb, i, j, k, l), true
+}
+
+type witness struct {
+	db     *sqlgen.Db
+	qc     qcase
+	sql    string // "" = print the term
+	cfgs   []config
+	repeat int
+}
+
+func iv(vs ...interface{}) []sqlgen.Value {
+	out := make([]sqlgen.Value, len(vs))
+	for i, v := range vs {
+		switch x := v.(type) {
+		case nil:
+			out[i] = sqlgen.Null()
+		case int:
+			out[i] = sqlgen.Int(int64(x))
+		}
+	}
+	return out
+}
+
+func corpus() []witness {
+	ii := []sqlgen.Ty{sqlgen.TInt, sqlgen.TInt}
+	iii := []sqlgen.Ty{sqlgen.TInt, sqlgen.TInt, sqlgen.TInt}
+	c := func(k int) *sqlgen.Expr { return sqlgen.Col(0, k) }
+	// (1) inner_conjunct_lost_at_outer_join:
+	//   t0 s1 LEFT JOIN t1 s2 ON s2.c1 = s1.c1 INNER JOIN t1 s3 ON s1.c1 = s3.c2 AND s3.c2 <= s2.c2
+	// s2 is NULL-padded, so `s3.c2 <= s2.c2` is NULL and the inner join is empty; under
+	// JOIN_ORDER(s1,s3,s2) the conjunct is dropped and the row (1,3,NULL,NULL,NULL,3,1,3) appears.
+	db1 := &sqlgen.Db{Tables: []*sqlgen.Table{
+		{Tys: ii, NotNull: []bool{false, false}, Rows: [][]sqlgen.Value{iv(1, 3)}},
+		{Tys: iii, NotNull: []bool{false, false, false}, Rows: [][]sqlgen.Value{iv(3, 1, 3)}},
+	}}
+	q1 := sqlgen.Join("inner", sqlgen.Bin("and", sqlgen.Cmp("eq", c(1), c(7)), sqlgen.Cmp("le", c(7), c(4))),
+		sqlgen.Join("left", sqlgen.Cmp("eq", c(3), c(1)), sqlgen.TableQ(0), sqlgen.TableQ(1)), sqlgen.TableQ(1))
+	// (2) hash_exclude_nulls_probe_miss: (5,7) NOT IN {(1,5),(2,6),(NULL,7),(3,8),…} is NULL (the row is
+	// filtered out); as LeftOuterHashJoinExcludingNulls the probe of the empty bucket (5,7) is answered
+	// with an arbitrary other bucket, and unless that happens to be the bucket of (NULL,7) the row is kept.
+	db2 := &sqlgen.Db{Tables: []*sqlgen.Table{
+		{Tys: ii, NotNull: []bool{false, false}, Rows: [][]sqlgen.Value{iv(1, 2), iv(5, 7), iv(nil, 3), iv(2, 2), iv(7, 2)}},
+		{Tys: ii, NotNull: []bool{false, false}, Rows: [][]sqlgen.Value{iv(1, 5), iv(2, 6), iv(nil, 7), iv(3, 8), iv(10, 1), iv(11, 1), iv(12, 1), iv(13, 1)}},
+	}}
+	// (3) merge_join_tuple_null_key: self join on both columns of a composite index; the left row
+	// (NULL,1) makes the tuple comparison fail with a nil operand, the left TUPLE is not nil, so the
+	// iterator advances the right side to its end and returns nothing.
+	db3 := &sqlgen.Db{Tables: []*sqlgen.Table{
+		{Tys: ii, NotNull: []bool{false, false}, Extra: ", KEY k01 (c0, c1)", Rows: [][]sqlgen.Value{iv(nil, 1), iv(2, 0), iv(3, 2)}},
+	}}
+	q3 := sqlgen.Join("inner", sqlgen.Bin("and", sqlgen.Cmp("eq", c(0), c(2)), sqlgen.Cmp("eq", c(1), c(3))), sqlgen.TableQ(0), sqlgen.TableQ(0))
+	// (4) transitive_edge_from_nullsafe_equality: s1.c1 <=> s2.c0 and s1.c1 <=> s3.c0 make the builder add
+	// the edge s2.c0 = s3.c0 (plain equality); joining s2 and s3 first loses the NULL <=> NULL matches.
+	db4 := &sqlgen.Db{Tables: []*sqlgen.Table{
+		{Tys: ii, NotNull: []bool{false, false}, Extra: ", KEY k0 (c0)", Rows: [][]sqlgen.Value{iv(nil, -2), iv(2, 1), iv(nil, nil), iv(3, -2)}},
+	}}
+	q4 := sqlgen.Join("inner", sqlgen.Cmp("nseq", c(1), c(4)), sqlgen.Join("inner", sqlgen.Cmp("nseq", c(1), c(2)), sqlgen.TableQ(0), sqlgen.TableQ(0)), sqlgen.TableQ(0))
+	iiii := []sqlgen.Ty{sqlgen.TInt, sqlgen.TInt, sqlgen.TInt, sqlgen.TInt}
+	return []witness{
+		{db: db3, qc: qcase{q: q3, tys: iiii, kind: "witness"}, cfgs: []config{{name: "witness:merge", hint: "MERGE_JOIN(s1,s2)"}}, repeat: 1},
+		{db: db4, qc: qcase{q: q4, tys: append(append([]sqlgen.Ty{}, iiii...), ii...), kind: "witness"},
+			cfgs: []config{{name: "witness:order", hint: "JOIN_ORDER(s2,s3,s1) MERGE_JOIN(s2,s3)"}}, repeat: 1},
+		{db: db1, qc: qcase{q: q1, tys: append(append(append([]sqlgen.Ty{}, ii...), iii...), iii...), kind: "witness"},
+			cfgs: []config{{name: "witness:order", hint: "JOIN_ORDER(s1,s3,s2)"}}, repeat: 1},
+		{db: db2, qc: qcase{q: tupleTerm(0, 1, 0, 1, 0, 1), tys: ii, kind: "witness"}, sql: tupleSQL(db2, 0, 1, 0, 1, 0, 1),
+			cfgs: []config{{name: "witness:hash", hint: "HASH_JOIN(s1,s2)"}, {name: "witness:hash", hint: "HASH_JOIN(s1,s2)", force: true},
+				{name: "witness:hash", hint: "HASH_JOIN(s1,s2)", force: true}, {name: "witness:hash", hint: "HASH_JOIN(s1,s2)", force: true},
+				{name: "witness:hash", hint: "HASH_JOIN(s1,s2)", force: true}, {name: "witness:hash", hint: "HASH_JOIN(s1,s2)", force: true}}, repeat: 1},
+	}
+}
+
 var aliasRe = regexp.MustCompile(`\bt\d+ AS (s\d+)\b`)
 
 type config struct {
 	name   string
 	hint   string
 	coster uint64 // 0 = default coster
+	force  bool   // run even if the plan was already seen (witness of a nondeterministic finding)
 }
 
 // configs: the plan configurations a statement with the given table aliases is run under.
@@ -662,6 +940,12 @@ func (x *gen) configs(aliases []string, thorough bool) []config {
 		cs = append(cs, config{name: "LEFT_OUTER_LOOKUP_JOIN", hint: pairs("LEFT_OUTER_LOOKUP_JOIN")})
 		cs = append(cs, config{name: "LEFT_DEEP", hint: "LEFT_DEEP"})
 		cs = append(cs, config{name: "NO_MERGE_JOIN", hint: "NO_MERGE_JOIN"})
+		if len(aliases) == 3 {
+			a := aliases
+			for _, p := range [][]string{{a[0], a[2], a[1]}, {a[1], a[0], a[2]}, {a[1], a[2], a[0]}, {a[2], a[0], a[1]}} {
+				cs = append(cs, config{name: "order:perm3", hint: "JOIN_ORDER(" + strings.Join(p, ",") + ")"})
+			}
+		}
 		if len(aliases) >= 3 {
 			n := 2
 			if thorough {
@@ -693,6 +977,14 @@ func (x *gen) configs(aliases []string, thorough bool) []config {
 		cs = append(cs, config{name: "random-coster", coster: x.r.U64() | 1})
 	}
 	return cs
+}
+
+// worst: a disagreement between two plans belongs to a known region when either plan does.
+func worst(a, b string) string {
+	if b != "-" {
+		return b
+	}
+	return a
 }
 
 func withHint(sqlText, hint string) string {
@@ -728,9 +1020,9 @@ func run(a hx.RunArgs) error {
 
 	unitCases(out)
 
-	nDb, perDb := 25, 6
+	nDb, perDb := 40, 6
 	if a.Thorough {
-		nDb, perDb = 700, 8
+		nDb, perDb = 900, 8
 	}
 	cfg := sqlgen.Default()
 	cfg.Subqueries = false
@@ -738,94 +1030,138 @@ func run(a hx.RunArgs) error {
 	g := sqlgen.NewGen(r.Fork(), cfg)
 	x := &gen{r: r.Fork(), g: g}
 	shapes := map[string]int{}
-	for i := 0; i < nDb; i++ {
-		maxT := 3
-		if a.Thorough {
-			maxT = 4
+
+	// runQuery runs one query (term + SQL text) under every configuration on the open engine.
+	runQuery := func(e *eng.Eng, ctx *sql.Context, dbS, setupS string, qc qcase, text string, extra []config) {
+		defCoster := e.E.Analyzer.Coster
+		hasNull := strings.Contains(dbS, "null")
+		var aliases []string
+		for _, m := range aliasRe.FindAllStringSubmatch(text, -1) {
+			aliases = append(aliases, m[1])
 		}
-		db := x.genDb(maxT)
+		if len(aliases) > 4 {
+			aliases = aliases[:4]
+		}
+		seen := map[string]string{} // plan text -> observation
+		defPlan := ""
+		firstObs, firstID, firstCfg, firstRegion := "", "", "", "-"
+		for ci, c := range append(extra, x.configs(aliases, a.Thorough)...) {
+			stmt := withHint(text, c.hint)
+			setCoster := func() {
+				if c.coster != 0 {
+					e.E.Analyzer.Coster = &randCoster{r: hx.NewRand(c.coster)}
+				} else {
+					e.E.Analyzer.Coster = defCoster
+				}
+			}
+			setCoster()
+			pt, err := planOf(e, ctx, stmt)
+			if err != nil {
+				// the analyzer rejects the statement under this configuration: an observation
+				pt = "analyze-error: " + fmt.Sprint(eng.Errno(err))
+			}
+			out.Stat("configs")
+			if _, dup := seen[pt]; dup && !c.force {
+				e.E.Analyzer.Coster = defCoster
+				out.Stat("configs:same-plan-as-earlier")
+				continue
+			}
+			setCoster()
+			res := e.Query(ctx, stmt)
+			e.E.Analyzer.Coster = defCoster
+			obs := sqlgen.Canon(res, qc.tys, false)
+			seen[pt] = obs
+			ops := planOps(pt)
+			if ci == 0 {
+				defPlan = pt
+			}
+			shape := strings.Join(ops, "+")
+			shapes[shape]++
+			for _, o := range ops {
+				if strings.Contains(o, "Join") {
+					out.Stat("planop:" + o)
+				}
+			}
+			if hasOp(ops, "Idx") {
+				out.Stat("plan:uses-index")
+			}
+			payload := fmt.Sprintf("(c01 (ordered 0) %s (q %s) (kind %s) (cfg %s) (plan %s) (obs %s) (sql %s) %s)", dbS, qc.q.Sexp(), qc.kind,
+				hx.HexS(c.name), strings.Join(ops, " "), hx.HexS(obs), hx.HexS(stmt), setupS)
+			nontrivial := pt != defPlan && len(res.Rows) > 0
+			id := out.Case(payload, obs, nontrivial)
+			out.Stat("cases")
+			out.Stat("kind:" + qc.kind)
+			out.Stat("cfg:" + c.name)
+			if res.Class() != "ok" {
+				out.Stat("engine:" + res.Class())
+			}
+			if firstID == "" {
+				firstRegion = region(qc, ops, hasNull)
+				firstObs, firstID, firstCfg = obs, id, c.name
+			} else if obs != firstObs {
+				// model-free oracle: two plans of one query disagree
+				out.OracleFail(id, worst(firstRegion, region(qc, ops, hasNull)), fmt.Sprintf("plan under %q returns %s, plan under %q (case %s) returns %s: %s", c.name, obs, firstCfg, firstID, firstObs, stmt))
+			}
+		}
+		out.Stat(fmt.Sprintf("distinct-plans-per-query:%d", len(seen)))
+	}
+	open := func(db *sqlgen.Db) (*eng.Eng, *sql.Context, string, string) {
 		e := eng.New("d")
 		ctx := e.Ctx()
 		e.MustExec(ctx, db.Setup()...)
-		defCoster := e.E.Analyzer.Coster
-		dbS := db.Sexp()
 		setupS := hx.ListOf(append([]string{"setup"}, db.Setup()...), func(s string) string {
 			if s == "setup" {
 				return s
 			}
 			return hx.HexS(s)
 		})
+		return e, ctx, db.Sexp(), setupS
+	}
+
+	// corpus: the witnesses of the known findings first
+	for _, w := range corpus() {
+		e, ctx, dbS, setupS := open(w.db)
+		text := w.sql
+		if text == "" {
+			text = (&sqlgen.Printer{Db: w.db, AllowMixedJoinChains: true}).SQL(w.qc.q)
+		}
+		for i := 0; i < w.repeat; i++ {
+			runQuery(e, ctx, dbS, setupS, w.qc, text, w.cfgs)
+		}
+		out.Stat("corpus")
+	}
+
+	for i := 0; i < nDb; i++ {
+		maxT := 3
+		if a.Thorough {
+			maxT = 4
+		}
+		if i%3 == 2 {
+			db := x.genPhysDb()
+			e, ctx, dbS, setupS := open(db)
+			for k := 0; k < perDb; k++ {
+				qc := x.physQuery()
+				runQuery(e, ctx, dbS, setupS, qc, (&sqlgen.Printer{Db: db}).SQL(qc.q), nil)
+			}
+			out.Stat("db:phys")
+			continue
+		}
+		db := x.genDb(maxT)
+		e, ctx, dbS, setupS := open(db)
 		for k := 0; k < perDb; k++ {
-			qc := x.query(a.Thorough, false)
-			p := &sqlgen.Printer{Db: db}
-			text := p.SQL(qc.q)
-			var aliases []string
-			for _, m := range aliasRe.FindAllStringSubmatch(text, -1) {
-				aliases = append(aliases, m[1])
-			}
-			if len(aliases) > 4 {
-				aliases = aliases[:4]
-			}
-			seen := map[string]string{} // plan text -> observation
-			defPlan := ""
-			firstObs, firstID, firstCfg := "", "", ""
-			for ci, c := range x.configs(aliases, a.Thorough) {
-				stmt := withHint(text, c.hint)
-				setCoster := func() {
-					if c.coster != 0 {
-						e.E.Analyzer.Coster = &randCoster{r: hx.NewRand(c.coster)}
-					} else {
-						e.E.Analyzer.Coster = defCoster
-					}
-				}
-				setCoster()
-				pt, err := planOf(e, ctx, stmt)
-				if err != nil {
-					// the analyzer rejects the statement under this configuration: an observation
-					pt = "analyze-error: " + fmt.Sprint(eng.Errno(err))
-				}
-				out.Stat("configs")
-				if _, dup := seen[pt]; dup {
-					out.Stat("configs:same-plan-as-earlier")
+			if x.r.Chance(1, 12) {
+				if qc, text, ok := x.tupleNotIn(); ok {
+					runQuery(e, ctx, dbS, setupS, qc, text, nil)
 					continue
 				}
-				setCoster()
-				res := e.Query(ctx, stmt)
-				e.E.Analyzer.Coster = defCoster
-				obs := sqlgen.Canon(res, qc.tys, false)
-				seen[pt] = obs
-				ops := planOps(pt)
-				if ci == 0 {
-					defPlan = pt
-				}
-				shape := strings.Join(ops, "+")
-				shapes[shape]++
-				for _, o := range ops {
-					if strings.Contains(o, "Join") {
-						out.Stat("planop:" + o)
-					}
-				}
-				if hasOp(ops, "Idx") {
-					out.Stat("plan:uses-index")
-				}
-				payload := fmt.Sprintf("(c01 (ordered 0) %s (q %s) (kind %s) (cfg %s) (plan %s) (obs %s) (sql %s) %s)", dbS, qc.q.Sexp(), qc.kind,
-					hx.HexS(c.name), hx.ListOf(ops, func(s string) string { return s }), hx.HexS(obs), hx.HexS(stmt), setupS)
-				nontrivial := pt != defPlan && len(res.Rows) > 0
-				id := out.Case(payload, obs, nontrivial)
-				out.Stat("cases")
-				out.Stat("kind:" + qc.kind)
-				out.Stat("cfg:" + c.name)
-				if res.Class() != "ok" {
-					out.Stat("engine:" + res.Class())
-				}
-				if firstID == "" {
-					firstObs, firstID, firstCfg = obs, id, c.name
-				} else if obs != firstObs {
-					// model-free oracle: two plans of one query disagree
-					out.OracleFail(id, region(qc, ops, obs), fmt.Sprintf("plan under %q returns %s, plan under %q (case %s) returns %s: %s", c.name, obs, firstCfg, firstID, firstObs, stmt))
-				}
 			}
-			out.Stat(fmt.Sprintf("distinct-plans-per-query:%d", len(seen)))
+			mixed := x.r.Chance(1, 4)
+			qc := x.query(a.Thorough, mixed)
+			p := &sqlgen.Printer{Db: db, AllowMixedJoinChains: mixed || qc.kind == "reorder"}
+			if mixed {
+				out.Stat("q:mixed-chain")
+			}
+			runQuery(e, ctx, dbS, setupS, qc, p.SQL(qc.q), nil)
 		}
 	}
 	out.Extra["plan_shapes"] = len(shapes)
@@ -852,9 +1188,124 @@ func run(a hx.RunArgs) error {
 	return nil
 }
 
-// region mirrors the region predicate of lean/Drivers/C01.lean (decided on the case, not on the
-// outcome); "-" = no known region.
-func region(qc qcase, ops []string, obs string) string {
+// region mirrors the region predicate of lean/Gms/Model/PhysRegions.lean (decided on the case:
+// query term + operator skeleton of the plan, not on the outcome); "-" = no known region.
+func conjuncts(e *sqlgen.Expr) int {
+	if e.Op == "and" {
+		return conjuncts(e.Args[0]) + conjuncts(e.Args[1])
+	}
+	return 1
+}
+
+func joinTree(q *sqlgen.Query) *sqlgen.Query {
+	for q.Op == "filter" || q.Op == "project" || q.Op == "group" || q.Op == "distinct" {
+		q = q.L
+	}
+	return q
+}
+
+func hasLeftJoin(q *sqlgen.Query) bool {
+	if q.Op != "join" {
+		return false
+	}
+	return q.Kind == "left" || hasLeftJoin(q.L) || hasLeftJoin(q.R)
+}
+
+func multiConjInnerAboveLeft(q *sqlgen.Query) bool {
+	if q.Op != "join" {
+		return false
+	}
+	if q.Kind == "inner" && conjuncts(q.P) >= 2 && (hasLeftJoin(q.L) || hasLeftJoin(q.R)) {
+		return true
+	}
+	return multiConjInnerAboveLeft(q.L) || multiConjInnerAboveLeft(q.R)
+}
+
+func isInnerTypeOp(s string) bool {
+	switch s {
+	case "InnerJoin", "HashJoin", "LookupJoin", "MergeJoin", "CrossJoin", "CrossHashJoin", "RangeHeapJoin":
+		return true
+	}
+	return false
+}
+
+func outerAboveInner(ops []string) bool {
+	for i, o := range ops {
+		if strings.HasPrefix(o, "LeftOuter") {
+			for _, p := range ops[i+1:] {
+				if isInnerTypeOp(p) {
+					return true
+				}
+			}
+		}
+	}
+	return false
+}
+
+// hasTupleNotIn: the term is the encoding of a row-constructor NOT IN (see tupleTerm).
+func hasTupleNotIn(q *sqlgen.Query) bool {
+	if q.Op != "filter" || q.P.Op != "not" || q.P.Args[0].Op != "exists" {
+		return false
+	}
+	in := q.P.Args[0].Q
+	return in.Op == "filter" && in.P.Op == "not" && in.P.Args[0].Op == "isfalse" && in.P.Args[0].Args[0].Op == "and"
+}
+
+// nseqPairs: the column pairs of the `<=>` conjuncts in the ON conditions of inner joins.
+func nseqPairs(q *sqlgen.Query, out *[][2]int) {
+	if q.Op != "join" {
+		return
+	}
+	if q.Kind == "inner" {
+		var walk func(e *sqlgen.Expr)
+		walk = func(e *sqlgen.Expr) {
+			if e.Op == "and" {
+				walk(e.Args[0])
+				walk(e.Args[1])
+				return
+			}
+			if e.Op == "cmp" && e.Sub == "nseq" && e.Args[0].Op == "col" && e.Args[1].Op == "col" && e.Args[0].D == 0 && e.Args[1].D == 0 {
+				*out = append(*out, [2]int{e.Args[0].I, e.Args[1].I})
+			}
+		}
+		walk(q.P)
+	}
+	nseqPairs(q.L, out)
+	nseqPairs(q.R, out)
+}
+
+// sharedNullsafe: two `<=>` join conjuncts share a column (a <=> b, a <=> c): the join order builder
+// derives the transitive edge b = c — with plain equality.
+func sharedNullsafe(q *sqlgen.Query) bool {
+	var ps [][2]int
+	nseqPairs(q, &ps)
+	for i := range ps {
+		for j := range ps {
+			if i < j && (ps[i][0] == ps[j][0] || ps[i][0] == ps[j][1] || ps[i][1] == ps[j][0] || ps[i][1] == ps[j][1]) && ps[i] != ps[j] {
+				return true
+			}
+		}
+	}
+	return false
+}
+
+func region(qc qcase, ops []string, hasNull bool) string {
+	if multiConjInnerAboveLeft(joinTree(qc.q)) && outerAboveInner(ops) {
+		return "inner_conjunct_lost_at_outer_join"
+	}
+	if hasOp(ops, "TupleCmp") && hasNull {
+		return "merge_join_tuple_null_key"
+	}
+	if sharedNullsafe(joinTree(qc.q)) {
+		return "transitive_edge_from_nullsafe_equality"
+	}
+	if hasTupleNotIn(qc.q) {
+		for _, o := range ops {
+			if o == "LeftOuterHashJoinExcludingNulls" || o == "AntiHashJoin" {
+				return "hash_exclude_nulls_probe_miss"
+			}
+		}
+	}
 	return "-"
 }
 
